@@ -23,13 +23,13 @@ theorem rooted_of_thread {s : State} {t : Tid} {th : Thread} {i : Id} (h : s.ths
 
 theorem rooted_of_held {s : State} {r : Ref} (h : r ∈ s.g.held) : rooted s r.id = true := by
   simp only [rooted, Bool.or_eq_true, List.any_eq_true]
-  exact .inl (.inl (.inr ⟨r, h, by simp⟩))
+  exact .inl (.inl (.inl (.inr ⟨r, h, by simp⟩)))
 
 theorem not_rooted_strong {s : State} {i : Id} (h : ¬ rooted s i = true) : ∀ e ∈ s.g.strong, e.2 ≠ i := by
   intro e he hi
   apply h
   simp only [rooted, Bool.or_eq_true, List.any_eq_true]
-  exact .inl (.inl (.inl ⟨e, he, by simp [hi]⟩))
+  exact .inl (.inl (.inl (.inl ⟨e, he, by simp [hi]⟩)))
 
 theorem sw_collect {g : Glob} {k : Key} (h : SW g) (hi : ∀ e ∈ g.strong, g.weak k ≠ some e.2) :
     ∀ e ∈ g.strong, upd g.weak k none e.1 = some e.2 := by
@@ -89,8 +89,8 @@ theorem step_inv {s s' : State} {l : Label} (h : Inv kd res s) (hs : step kd res
     simp only [step] at hs
     split at hs
     · cases hs
-      obtain ⟨g1, g2, g3, g4, g5, g6, g7, g8, g9, g10⟩ := h.gi
-      refine ⟨⟨?_, ?_, ?_, g4, g5, g6, g7, ?_, g9, g10⟩, ?_, h.owner, h.swFree, h.sw⟩
+      obtain ⟨g1, g2, g3, g4, g5, g6, g7, g8, g9, g10, g11⟩ := h.gi
+      refine ⟨⟨?_, ?_, ?_, g4, g5, g6, g7, ?_, g9, g10, g11⟩, ?_, h.owner, h.swFree, h.sw⟩
       · intro hk r hr; exact g1 hk r (List.mem_filter.mp hr).1
       · intro r hr; exact g2 r (List.mem_filter.mp hr).1
       · intro hk r hr r' hr'; exact g3 hk r (List.mem_filter.mp hr).1 r' (List.mem_filter.mp hr').1
@@ -107,10 +107,10 @@ theorem step_inv {s s' : State} {l : Label} (h : Inv kd res s) (hs : step kd res
       · cases hs
       · rename_i hroot
         cases hs
-        obtain ⟨g1, g2, g3, g4, g5, g6, g7, g8, g9, g10⟩ := h.gi
+        obtain ⟨g1, g2, g3, g4, g5, g6, g7, g8, g9, g10, g11⟩ := h.gi
         have hcol : ∀ (g0 : SW s.g), ∀ e ∈ s.g.strong, upd s.g.weak k none e.1 = some e.2 := fun g0 =>
           sw_collect g0 (fun e he hc => by rw [hki] at hc; cases hc; exact not_rooted_strong (by simpa using hroot) e he rfl)
-        refine ⟨⟨?_, g2, g3, ?_, g5, ?_, g7, g8, g9, g10⟩, ?_, h.owner, fun hl => hcol (h.swFree hl),
+        refine ⟨⟨?_, g2, g3, ?_, g5, ?_, g7, g8, g9, g10, g11⟩, ?_, h.owner, fun hl => hcol (h.swFree hl),
                 fun t2 th2 h2 hin hnc => hcol (h.sw t2 th2 h2 hin hnc)⟩
         · intro hk r hr he
           have hw := g1 hk r hr he
@@ -148,7 +148,7 @@ theorem reachable_inv {s0 s : State} (h0 : Inv kd res s0) (h : Reachable kd res 
   | step _ hs ih => exact step_inv ih hs
 
 theorem init_inv (cap : Nat) (scripts : List (List Op)) : Inv kd res (initState cap scripts) := by
-  refine ⟨⟨?_, ?_, ?_, ?_, ?_, ?_, ?_, ?_, ?_, ?_⟩, ?_, ?_, ?_, ?_⟩ <;> (try (simp [initState, SW, TS]; done))
+  refine ⟨⟨?_, ?_, ?_, ?_, ?_, ?_, ?_, ?_, ?_, ?_, ?_⟩, ?_, ?_, ?_, ?_⟩ <;> (try (simp [initState, SW, TS]; done))
   simp only [initState, List.getElem?_map]
   intro t th hth
   cases hsc : scripts[t]? with
@@ -159,7 +159,7 @@ theorem init_inv (cap : Nat) (scripts : List (List Op)) : Inv kd res (initState 
     refine ⟨?_, ?_, ?_, ?_, ?_, ?_⟩ <;> simp [inLocked, kindOK, pcInv]
 
 theorem initSingleton_inv (scripts : List (List Op)) : Inv kd res (initSingleton scripts) := by
-  refine ⟨⟨?_, ?_, ?_, ?_, ?_, ?_, ?_, ?_, ?_, ?_⟩, ?_, ?_, ?_, ?_⟩ <;> (try (simp [initSingleton, SW, TS]; done))
+  refine ⟨⟨?_, ?_, ?_, ?_, ?_, ?_, ?_, ?_, ?_, ?_, ?_⟩, ?_, ?_, ?_, ?_⟩ <;> (try (simp [initSingleton, SW, TS]; done))
   simp only [initSingleton, List.getElem?_map]
   intro t th hth
   cases hsc : scripts[t]? with
